@@ -115,11 +115,11 @@ int main(int argc, char **argv)
 #endif
 	vf_slurp(argv[2]);
 	if (!strcmp(argv[1], "scan")) {
-		static unsigned char in[256];
+		static unsigned char in[4096];
 		const char *h = argc > 3 ? argv[3] : "";
 		int res, base_live;
 		const char *m;
-		for (vf_in_len = 0; h[0] && h[1] && vf_in_len < 255; h += 2) in[vf_in_len++] = (unsigned char)(vf_hexval(h[0]) * 16 + vf_hexval(h[1]));
+		for (vf_in_len = 0; h[0] && h[1] && vf_in_len < 4095; h += 2) in[vf_in_len++] = (unsigned char)(vf_hexval(h[0]) * 16 + vf_hexval(h[1]));
 		vf_in = in;
 		base_live = vf_nlive;
 		res = vf_try_load(vf_file, vf_file_len);
